@@ -81,11 +81,12 @@ class LPSpec(object):
 
     def build_big(self, rng, tier):
         """real lane at scale: 10-24 students, real CBC, no enumeration"""
-        sw = {'shape': 'big', 'lowq': rng.random() < 0.15,
+        sw = {'shape': 'boundary' if rng.random() < 0.2 else 'big',
+              'lowq': rng.random() < 0.15,
               'zero_cap': rng.random() < 0.15}
         if self.prop == 'C05':
             sw['twopl'] = True
-        inst = instances.gen_instance(rng, sw)
+        inst = instances.gen_instance(rng, sw, thorough=(tier == 'thorough'))
         mr = scenarios.maxrank_of(inst)
         if self.prop == 'C03':
             name = rng.choice(scenarios.CRIT)
@@ -236,7 +237,7 @@ def shrink_lp(sc, min_crit=0, keep_stab=False):
 PROPS = {}
 
 class BigLaneSpec(LPSpec):
-    big_lane = {'quick': 0.01, 'thorough': 0.02}
+    big_lane = {'quick': 0.006, 'thorough': 0.02}
 
 
 class C03Spec(BigLaneSpec):
@@ -415,7 +416,7 @@ PROPS['C16'] = C16Spec(
     'spy; (c) a status fault at a seeded round: reported prefix; non-trivial '
     '= flags given out of position order, or a refusal; distinct = distinct '
     'event-log digests among those',
-    {'quick': 40000, 'thorough': 1000000},
+    {'quick': 25000, 'thorough': 800000},
     required_probes=('refuse:pos-out-of-range', 'refuse:duplicate-pos',
                      'refuse:stab-without-twopl', 'refuse-with-missing-file',
                      'prefix-under-injected-fault', 'gapped'))
@@ -448,7 +449,7 @@ PROPS['C18'] = C18Spec(
     'solve, LP and brute-force mode, back end drawing a fresh optimal '
     'tie-break on every solve; non-trivial = history with a second solve or '
     'a repeated getter; distinct = distinct event-log digests among those',
-    {'quick': 30000, 'thorough': 800000},
+    {'quick': 20000, 'thorough': 600000},
     required_probes=('different-matchings-across-solves',
                      'repeated-getter-calls', 'bf'))
 PROPS['C18'].oracle = oracles.c18
